@@ -1023,7 +1023,9 @@ pub fn pow<E: Copy, T: FastPow<E>>(
     base: TensorView<T>,
     exp: TensorView<E>,
 ) -> Result<Tensor<T>, OpError> {
-    if let Some(&exp) = exp.item() {
+    // A single-element exponent with more dimensions than the base still
+    // affects the shape of the output.
+    if let Some(&exp) = exp.item().filter(|_| exp.ndim() <= base.ndim()) {
         Ok(base.map_in(pool, |x| x.fast_pow(exp)))
     } else {
         binary_op(pool, base, exp, &|b: T, e: E| b.fast_pow(e))
